@@ -56,6 +56,8 @@ def str2msg(text):
     calling check_msgdict().
     """
     words = text.split()
+    if not words:
+        raise ValueError('string contains no message')
     type_ = words[0]
     args = words[1:]
 
